@@ -216,6 +216,8 @@ def kCall (s : KSt) (n : Names) (h : Head) (args : List String) : Option (KSt ×
   | "liquidity", "CancelLiquidityStake", [id] =>
     let (n, id) := n.hash id
     some (runLiquidity s n (cancelLiquidityStake id) h.ctx)
+  | "liquidity", "UnlockLiquidityStakeEntries", [adm] => do
+    some (runLiquidity s n (unlockLiquidityStakeEntries (← parseBool adm)) h.ctx)
   | "liquidity", "BurnZnn", [a] => do
     some (runLiquidity s n (liquidityBurnZnn (← a.toNat?) true) h.ctx)
   | "bridge", "UnwrapToken", tx :: log :: to :: ta :: a :: canAct :: sigOk :: pair => do
